@@ -38,7 +38,7 @@ def carried_commit_views(m):
     return vs
 
 
-def local_rule_failures(i, op, ob, snap, cur):
+def local_rule_failures(i, op, ob, snap, cur, case_committee=None):
     """Replica-local rules of the specification that the safety and view-change theorems rest on, evaluated
     on one accepted step of the implementation (never via the model):
       * a commit certificate the replica was shown in an accepted message is retained: afterwards its high
@@ -68,6 +68,14 @@ def local_rule_failures(i, op, ob, snap, cur):
             if int(kv[1]) >= cur[0] and int(kv[1]) not in cq_views:
                 bad.append({"step": i, "failed": f"validator {kv[0]}'s commit vote for view {kv[1]} is recorded as counted but no commit certificate is under construction for that view"})
                 break
+    # an accepted proposal is signed by the leader of the PROPOSAL's view (round robin over the committee in the
+    # scenarios), whatever view the replica was in
+    if inner.get("t") == "msg" and inner.get("sig_ok", True) and "proposal" in inner["m"] and case_committee:
+        j = inner["m"]["proposal"]["j"]
+        pv = int(j["commit"]["msg"]["v"]["n"] if "commit" in j else j["timeout"]["v"]["n"]) + 1
+        want = case_committee[pv % len(case_committee)][0]
+        if int(inner["key"]) != int(want):
+            bad.append({"step": i, "failed": f"accepted a proposal for view {pv} signed by validator {inner['key']}, but the leader of view {pv} is validator {want}"})
     hv = snap[2][0] if snap[2] else None
     for e in ob[1][0]:
         if e[0] != 1:
@@ -158,7 +166,7 @@ def predicates(case, out):
                         bad.append({"step": i, "failed": f"the step completed/received a certificate for view {want - 1} but the replica moved to view {cur[0]} (a view change must be to the successor of the certificate's view)"})
         if ob[0] and ob[0][0] == 1:
             bad.append({"step": i, "failed": "handler panicked"})
-        bad += local_rule_failures(i, op, ob, snap, cur)
+        bad += local_rule_failures(i, op, ob, snap, cur, case.get("_c"))
         prev = cur
     for s in out.get("sent", []):
         if s["by_me"] and not (s["sig_ok"] and s["verifies"]):
